@@ -6,6 +6,7 @@ import (
 	"fmt"
 	"os"
 	"sort"
+	"strconv"
 	"sync"
 	"time"
 )
@@ -69,6 +70,28 @@ func newReport(prop string, f campaignFlags) *Report {
 }
 
 func (r *Report) count(key string, n int) { r.Distribution[key] += n }
+
+// outOfTime: the random part of a campaign stops when its time budget is used up (a loaded machine must not turn
+// into a timeout of the check); what was covered is in the report. Budget: 10 min (quick) / 70 min (thorough),
+// VERIF_BUDGET_S overrides. Directed scenarios and corpus cases always run.
+func (r *Report) outOfTime() bool {
+	budget := 600.0
+	if r.Tier == "thorough" {
+		budget = 4200
+	}
+	if v := os.Getenv("VERIF_BUDGET_S"); v != "" {
+		if b, err := strconv.ParseFloat(v, 64); err == nil && b > 0 {
+			budget = b
+		}
+	}
+	if time.Since(r.start).Seconds() < budget {
+		return false
+	}
+	if r.Distribution["stopped-at-time-budget"] == 0 {
+		r.Distribution["stopped-at-time-budget"] = 1
+	}
+	return true
+}
 
 // nontrivial registers a case key that is non-trivial by the campaign's rule.
 func (r *Report) nontrivial(key string) {
